@@ -358,3 +358,33 @@ Proof.
   - intros H. destruct (stopped_removes a clock (run_spec ops) H) as (H1 & H2 & _). by split.
   - intros ih. apply announce_other_family_untouched.
 Qed.
+
+(* ---- C02 at the level of the response hook, for any store state: the peers of an announce response are the
+   decoded keys of a selection that satisfies the declarative selection_spec with respect to the swarm's current
+   seeder and leecher keys and the request's (sanitised) numwant; when that selection is empty the response is
+   just the announcer, with its own count bumped *)
+Theorem respond_selection (a : ann) sp c i ps :
+  0 <= a_numwant a → respond spec_if a sp = Some (c, i, ps) →
+  let '(Sk, Lk) := key_lists spec_if sp (a_ih a) (a_v6 a) in
+  let seeding := a_left a =? 0 in
+  ∃ ks l, SelectP.selection_spec Sk Lk (a_key a) seeding (a_numwant a) ks ∧ decode_all ks = Some l ∧
+    ((l = [] ∧ ps = [a_peer a] ∧
+      c = wrap32 ((st_scrape spec_if (a_ih a) (a_v6 a) sp).1 + (if seeding then 1 else 0)) ∧
+      i = wrap32 ((st_scrape spec_if (a_ih a) (a_v6 a) sp).2 + (if seeding then 0 else 1))) ∨
+     (l ≠ [] ∧ ps = l ∧ (c, i) = st_scrape spec_if (a_ih a) (a_v6 a) sp)).
+Proof.
+  intros Hnw. unfold respond.
+  destruct (st_scrape spec_if (a_ih a) (a_v6 a) sp) as [c0 i0] eqn:Esc.
+  destruct (key_lists spec_if sp (a_ih a) (a_v6 a)) as [Sk Lk] eqn:Ek. cbn zeta.
+  assert (NoDup Sk ∧ NoDup Lk) as [HS HL].
+  { unfold key_lists in Ek. cbn [st_members spec_if] in Ek. destruct (sp !! (a_ih a, a_v6 a)) as [sw|].
+    - injection Ek as <- <-. split; rewrite list_map_fmap;
+        first [apply NoDup_fst_map_to_list | apply (proj1 (NoDup_ListNoDup _)), NoDup_fst_map_to_list].
+    - injection Ek as <- <-. split; constructor. }
+  destruct (decode_all _) as [l|] eqn:Ed; [|done].
+  intros H. exists (select_ref Sk Lk (a_key a) (a_left a =? 0) (a_numwant a)), l.
+  split; [apply SelectP.select_ref_spec; [by apply NoDup_ListNoDup|by apply NoDup_ListNoDup|exact Hnw]|]. split; [exact Ed|].
+  destruct l as [|p l].
+  - left. injection H as <- <- <-. cbn [fst snd]. done.
+  - right. injection H as <- <- <-. done.
+Qed.
